@@ -78,6 +78,7 @@ func runC03(c *harness.Ctx) {
 			p.kind = "random"
 		}
 		c.Feature("probe-" + p.kind)
+		c.S.Count("fault.probe-"+p.kind, 1)
 		if t.Draw(name+".disc", 4) == 3 {
 			p.disconnectAfter = time.Duration(1+t.Draw(name+".discs", 100)) * time.Second
 		}
